@@ -1585,10 +1585,14 @@ def run_variant(v, kws, ctx, probe_kw=None):
                 r["ser_err"] = type(e).__name__
             beh.append(r)
         res["beh"] = beh
-        try:
-            res["schema"] = json.dumps(structure_to_schema(cls), sort_keys=True, default=repr)
-        except Exception as e:  # pylint: disable=broad-except
-            res["schema"] = "raised " + err_name(e)
+        if not ffields:      # (the schema shows a product of a stateful default factory: differs from call to call by design)
+            try:
+                defs = {}
+                sch = structure_to_schema(cls, defs)
+                res["schema"] = json.dumps([sch, defs], sort_keys=True, default=repr)
+            except Exception as e:  # pylint: disable=broad-except
+                # (which field's mapper refuses first depends on the definition order: only "it raises" is compared)
+                res["schema"] = "raised " + (err_name(e) if len(v["fields"]) == 1 else "")
     finally:
         sys.modules.pop(modname, None)
     return res
@@ -1701,8 +1705,9 @@ def site(feats, phenomenon=None):
     return "plain"
 
 
-def compare_variants(a, b):
-    """phenomenon in which two variants' observable behaviour differs, or None"""
+def compare_variants(a, b, same_decl=False):
+    """phenomenon in which two variants' observable behaviour differs, or None; `same_decl`: the model elaborates both
+    to the SAME class declaration (then the exported schema must be the same as well: theorem same_schema)"""
     if ("def_err" in a) != ("def_err" in b):
         return "definition-error", f"one spelling raises {a.get('def_err') or b.get('def_err')} at class definition, the other defines the class"
     if "def_err" in a:
@@ -1733,7 +1738,7 @@ def compare_variants(a, b):
             else:
                 ph = "deserialization-differs"
             return ph, f"kwargs #{j}: {json.dumps(x)[:200]} vs {json.dumps(y)[:200]}"
-    if a.get("schema") != b.get("schema"):
+    if same_decl and a.get("schema") != b.get("schema"):
         return "schema-differs", f"structure_to_schema: {str(a.get('schema'))[:220]} vs {str(b.get('schema'))[:220]}"
     if ("undumpable" in a) != ("undumpable" in b):      # same behaviour on the stream, but not the same kind of field
         return "field-kind-differs", f"{a.get('undumpable') or b.get('undumpable')}"
@@ -1754,7 +1759,9 @@ def oracle(case, impl, model):
         srcs = (json.dumps([field_source(f)[0] for f in v["fields"]]) + (" [future]" if v["future"] else "")
                 + (f" [in {v['scope']} scope]" if v.get("scope", "module") != "module" else ""))
         if i > 0:
-            diff = compare_variants(ref, iv)
+            m0, mi = model["variants"][0]["cls"], mv["cls"]
+            same_decl = "ok" in m0 and "ok" in mi and norm_model_cls(m0["ok"]) == norm_model_cls(mi["ok"])
+            diff = compare_variants(ref, iv, same_decl)
             if diff and diff[0] == "definition-error-class" and (
                     site(feats + ref_feats) != "plain"
                     or sum(1 for mf in model["variants"][0]["fields"] if "err" in mf["res"]) != 1):
